@@ -55,7 +55,7 @@ def build(flavour='asan', target='vh'):
 # ----------------------------------------------------------------------------------------------
 # sanitizer report parsing
 
-_FRAME = re.compile(r'^\s*#(\d+) 0x[0-9a-f]+ in (.+?) (/\S+?):(\d+)(?::\d+)?\s*$')
+_FRAME = re.compile(r'^\s*#(\d+) 0x[0-9a-f]+ in (.+?) (/[^\s:]+)(?::(\d+))?(?::\d+)?\s*$')
 _FRAME_NOSRC = re.compile(r'^\s*#(\d+) 0x[0-9a-f]+ in (.+?) \(')
 
 
@@ -81,6 +81,7 @@ def parse_sanitizer(stderr_text):
         if m:
             msg = m.group(1)
             msg = re.sub(r'0x[0-9a-f]+', 'ADDR', msg)
+            msg = re.sub(r'-?(inf|nan)\b', 'N', msg)
             msg = re.sub(r'-?\d+(\.\d+)?(e[+-]?\d+)?', 'N', msg)
             msg = re.sub(r"'[^']*'", 'T', msg)
             kind = 'ubsan:' + msg.strip()[:80]
@@ -93,19 +94,23 @@ def parse_sanitizer(stderr_text):
     fn = ''
     ffile = ''
     started = False
+    first = None
     for line in stderr_text.splitlines():
         fm = _FRAME.match(line)
         if fm:
             started = True
             path = fm.group(3)
-            if '/src/' in path and ('/repo/' in path or REPO in path or '/src/' in path) and '/harness/' not in path and '/include/c++' not in path and '/bits/' not in path:
-                fn = _short_fn(fm.group(2))
-                ffile = os.path.basename(path)
-                break
+            if '/src/' in path and '/harness/' not in path and '/include/c++' not in path and '/bits/' not in path and '/lib/' not in path:
+                cand = (_short_fn(fm.group(2)), os.path.basename(path))
+                if first is None:
+                    first = cand
+                if path.endswith('.cpp') or path.endswith('.cc'):
+                    fn, ffile = cand
+                    break
         elif started and not _FRAME_NOSRC.match(line) and line.strip() == '':
-            # end of first stack
-            if fn:
-                break
+            break  # end of first stack
+    if not fn and first:
+        fn, ffile = first
     return {'kind': kind, 'fn': fn, 'file': ffile, 'sig': '%s|%s|%s' % (kind, fn, ffile)}
 
 
@@ -117,8 +122,11 @@ class Death(dict):
     pass
 
 
+EOF = object()
+
+
 class _Worker:
-    def __init__(self, binary, idx, extra_env=None, args=()):
+    def __init__(self, binary, idx, extra_env=None, args=(), cwd=None):
         self.binary = binary
         self.idx = idx
         self.proc = None
@@ -126,6 +134,7 @@ class _Worker:
         os.makedirs(os.path.dirname(self.errpath), exist_ok=True)
         self.extra_env = extra_env or {}
         self.args = list(args)
+        self.cwd = cwd
         self.buf = b''
 
     def start(self):
@@ -135,7 +144,7 @@ class _Worker:
         env.setdefault('TSAN_OPTIONS', 'halt_on_error=0:second_deadlock_stack=1:history_size=4')
         env.update(self.extra_env)
         self.errf = open(self.errpath, 'wb')
-        self.proc = subprocess.Popen([self.binary] + self.args, stdin=subprocess.PIPE, stdout=subprocess.PIPE, stderr=self.errf, env=env, bufsize=0)
+        self.proc = subprocess.Popen([self.binary] + self.args, stdin=subprocess.PIPE, stdout=subprocess.PIPE, stderr=self.errf, env=env, bufsize=0, cwd=self.cwd)
         self.buf = b''
 
     def stop(self):
@@ -168,7 +177,7 @@ class _Worker:
             if r:
                 chunk = os.read(self.proc.stdout.fileno(), 1 << 16)
                 if not chunk:
-                    return b''  # EOF
+                    return EOF
                 self.buf += chunk
         line, self.buf = self.buf.split(b'\n', 1)
         return line
@@ -213,13 +222,14 @@ class _Worker:
             pass
         deadline = time.time() + wall_s
         cid = case['id']
+        step = None
         while True:
             line = self._readline(deadline)
             if line is None:
                 err = self._stderr_text()
                 self._restart()
-                return Death(kind='wall-timeout', stderr=err[-4000:])
-            if line == b'':
+                return Death(kind='wall-timeout', stderr=err[-4000:], step=step)
+            if line is EOF:
                 rc = None
                 try:
                     rc = self.proc.wait(timeout=30)
@@ -227,7 +237,7 @@ class _Worker:
                     pass
                 err = self._stderr_text()
                 self._restart()
-                d = Death(kind='signal', rc=rc, stderr=err)
+                d = Death(kind='signal', rc=rc, stderr=err, step=step)
                 d['san'] = parse_sanitizer(err)
                 return d
             if line.startswith(b'R '):
@@ -244,21 +254,27 @@ class _Worker:
                 except Exception:
                     pass
                 self._restart()
-                return Death(kind='cpu-timeout', stderr=err[-2000:])
+                return Death(kind='cpu-timeout', stderr=err[-2000:], step=step)
             if line.startswith(b'E '):
                 raise HarnessError('harness rejected case: %s' % line.decode('latin-1'))
+            if line.startswith(b'S '):
+                try:
+                    step = int(line.split(b' ')[2])
+                except (IndexError, ValueError):
+                    pass
             # 'B id' or noise printed by the VM to stdout: ignore
 
 
 class Runner:
     """Runs cases on a pool of vh workers. Each case is a dict with 'steps' (id is assigned here)."""
 
-    def __init__(self, flavour='asan', workers=None, extra_env=None, args=()):
+    def __init__(self, flavour='asan', workers=None, extra_env=None, args=(), cwd=None):
         self.flavour = flavour
         self.binary, self.build_s = build(flavour)
         self.nworkers = workers or NWORKERS
         self.extra_env = extra_env
         self.args = args
+        self.cwd = cwd
 
     def run(self, cases, cpu_ms=20000, wall_s=None, retry_timeouts=True, progress=None):
         n = len(cases)
@@ -272,7 +288,7 @@ class Runner:
         nw = max(1, min(self.nworkers, n))
 
         def work(widx):
-            w = _Worker(self.binary, widx, self.extra_env, self.args)
+            w = _Worker(self.binary, widx, self.extra_env, self.args, self.cwd)
             try:
                 while True:
                     with lock:
@@ -484,6 +500,8 @@ class Check:
         rc = 0
         if self.violations:
             os.makedirs(os.path.join(VERIF, 'replays', self.prop), exist_ok=True)
+            with open(os.path.join(VERIF, 'replays', self.prop, '_summary.json'), 'w') as f:
+                json.dump([{'key': k, 'desc': d[:300]} for k, d, _ in self.violations], f, indent=1, ensure_ascii=True)
             for key, desc, replay in self.violations[:10]:
                 h = hashlib.sha1(key.encode('latin-1', 'replace')).hexdigest()[:12]
                 path = os.path.join(VERIF, 'replays', self.prop, h + '.json')
